@@ -10,6 +10,7 @@
 """
 This module contains classes for XML Schema elements, complex types and model groups.
 """
+import threading
 import warnings
 from copy import copy as _copy
 from decimal import Decimal
@@ -54,6 +55,9 @@ if TYPE_CHECKING:
     from .groups import XsdGroup  # noqa: F401
 
 DataBindingType = Union[type['dataobjects.DataElement'], 'dataobjects.DataBindingMeta']
+
+# Serializes the registration of the types used with xsi:type on element declarations
+_xsi_types_lock = threading.Lock()
 
 
 class XsdElement(XsdComponent, ParticleMixin,
@@ -670,18 +674,21 @@ class XsdElement(XsdComponent, ParticleMixin,
                     reason = _("usage of %r is blocked") % xsd_type
                     context.validation_error(validation, self, reason, obj)
                 elif xsd_type not in self.xsi_types:
-                    self.xsi_types.add(xsd_type)
-
-                    # For complex contents augments permanently the XSD elements
-                    # that collect keys/keyrefs for enabled identities.
-                    if xsd_type.has_complex_content():
-                        xpath_element = XPathElement(self.name, xsd_type)
-                        for counter in context.identities.values():
-                            if counter.enabled:
-                                try:
-                                    counter.identity.update_elements(xpath_element)
-                                except TypeError as e:
-                                    context.validation_error(validation, self, e, obj)
+                    with _xsi_types_lock:
+                        if xsd_type not in self.xsi_types:
+                            # For complex contents augments permanently the XSD elements
+                            # that collect keys/keyrefs for enabled identities. The type
+                            # is recorded after that, so that another thread can't find
+                            # it registered while the identities are still incomplete.
+                            if xsd_type.has_complex_content():
+                                xpath_element = XPathElement(self.name, xsd_type)
+                                for counter in context.identities.values():
+                                    if counter.enabled:
+                                        try:
+                                            counter.identity.update_elements(xpath_element)
+                                        except TypeError as e:
+                                            context.validation_error(validation, self, e, obj)
+                            self.xsi_types.add(xsd_type)
 
         if xsd_type.abstract:
             reason = _("%r is abstract") % xsd_type
